@@ -1,6 +1,68 @@
-(* C16 -- placeholder while the model is tied to the code *)
-From LibTw2 Require Import Base.Res Model.Datafile.
+(* C16 -- datafile and map readers are total; accepted files are fully traversable.
+   Only the property theorems, each closed by lemmas proved in Proofs/Datafile*.v and
+   Proofs/MapReader*.v; statements are about the executable models Model/Datafile.v and
+   Model/MapReader.v (tied to the Rust code by the correspondence run). *)
+From LibTw2 Require Import Base.Res Model.Datafile
+  Proofs.DatafileBase Proofs.DatafileParse Proofs.DatafileCheck Proofs.DatafileAccess.
+From Coq Require Import ZArith List.
+Import ListNotations.
 Open Scope Z_scope.
+
+(* Opening: for EVERY byte string, Reader::new returns a reader or an error -- it never
+   panics (no index / slice / assert / cast / overflow site fires) and never runs out of
+   fuel (every loop is bounded by the tables just read). *)
+Theorem C16_open_total : forall bs, bytes_ok bs = true ->
+  match reader_new bs with
+  | Ok _ | Err _ => True
+  | Panic _ | OutOfFuel => False
+  end.
+Proof.
+  intros bs H. pose proof (reader_new_spec bs H) as S.
+  destruct (reader_new bs); cbn in S; auto.
+Qed.
+
+(* Accessors: on every accepted file, every API call with in-range arguments (indices below
+   the announced counts, u16 type ids -- any zlib behaviour whatsoever) returns a value or
+   an error, and every item view returned is the sub-slice [off, off+len) of the item area
+   behind a two-word header; index ranges lie inside 0..num_items. *)
+Theorem C16_accessors_total : forall bs r uncompress c, bytes_ok bs = true ->
+  reader_new bs = Ok r -> valid_call r c = true ->
+  match run_call uncompress r c with
+  | Ok v => value_inside r v
+  | Err _ => True
+  | Panic _ | OutOfFuel => False
+  end.
+Proof.
+  intros bs r unc c Hok Hnew Hv.
+  pose proof (reader_new_spec bs Hok) as S. rewrite Hnew in S. cbn in S.
+  destruct (run_call_spec unc r c S Hv) as [H _]. exact H.
+Qed.
+
+(* Data blocks: read_data(i) reads exactly the bytes [off, off+len) of the data section,
+   which lie inside the section announced by the header, which lies inside the file; in
+   version 3 the result is that slice, in version 4 it is whatever zlib makes of that slice
+   with the announced size as capacity, accepted only if the size matches. *)
+Theorem C16_data_inside : forall bs r uncompress i, bytes_ok bs = true ->
+  reader_new bs = Ok r -> 0 <= i < h_num_data (r_hdr r) ->
+  exists off len,
+    read_data_src r i = Ok (off, len) /\ 0 <= off /\ 0 <= len
+    /\ off + len <= h_size_data (r_hdr r) /\ h_size_data (r_hdr r) <= zlen (r_data r)
+    /\ let raw := firstn (Z.to_nat len) (skipn (Z.to_nat off) (r_data r)) in
+       match r_uds r with
+       | None => read_data uncompress r i = Ok raw
+       | Some uds => exists u, znth uds i = Some u /\ 0 <= u <= 2147483647
+                               /\ read_data uncompress r i = zcase u (uncompress u raw)
+       end.
+Proof.
+  intros bs r unc i Hok Hnew Hi.
+  pose proof (reader_new_spec bs Hok) as S. rewrite Hnew in S. cbn in S.
+  exact (read_data_spec unc r i S Hi).
+Qed.
+
 Example C16_nonvacuous : reader_new [] = Err TooShortHeaderVersion.
 Proof. vm_compute. reflexivity. Qed.
+
+Print Assumptions C16_open_total.
+Print Assumptions C16_accessors_total.
+Print Assumptions C16_data_inside.
 Print Assumptions C16_nonvacuous.
